@@ -167,7 +167,7 @@ def layout_matches(ctx, text, vals):
 
 def run(ctx):
     quick = ctx.tier == 'quick'
-    ks = [2, 3, 4] if quick else [2, 3, 4, 5, 6]
+    ks = [2, 3, 4] if quick else [2, 3, 4, 5]
     ctx.bounds = {'variables': ks, 'group / binding numbers': 'all of u32 x u32, presence of a binding symbolic'}
     ctx.assumptions += ['validation off (validator stubs are covered by C17)',
                         'resource type fixed to a uniform buffer: get_bind_group_data does not look at the type']
